@@ -32,6 +32,7 @@ STRUCT_CHUNKS = [
 ]
 ROLE_CHUNKS = [
     "0 HUSB @I@\n", "1 WIFE\n", "2 CHIL @C@\n", "0 @F@ FAM\n", "1 @I@ INDI v\n", "0 A\n", "1 B\n", "3 C\n", "x\n", "\r",
+    "1 husb @I@\n", "0 Chil\n",
 ]
 LEX_ALPHABET = [b"0", b"1", b" ", b"@", b"A", b"_", b"\r", b"\n", b"\xff"]
 
@@ -158,7 +159,10 @@ def run(ctx):
             dec = o["decoded"]
             kind = "roundtrip"
             sig = {"kind": kind, "why": "trace-rejected", "decoded": dec["out"]}
-            ctx.violation(sig, why, {"text": text_of(o["bytes"]), "built": o["built"], "decoded": dec,
+            if o.get("big"):
+                sig["why"] = "large-document"
+            ctx.violation(sig, why, {"text": text_of(o["bytes"])[:2000], "nodes": o.get("nodes"), "size": o.get("size"),
+                                     "built": o["built"], "decoded": dec,
                                      "kindsok": o["kindsok"], "kinds": o.get("kinds"), "encsame": o["encsame"]})
         rule = ("A: every forest TLC enumerates (4 bounded alphabets incl. a depth-0..N chain) is built through the public API, "
                 "encoded, decoded and compared; B: %d seeded forests over all registered tags (depth <= 99) recorded and judged by "
